@@ -74,7 +74,7 @@ EXHAUSTIVE = {"quick": True, "thorough": True}
 CASE_TIMEOUT = 900
 CHUNK = 2
 
-NAMES = (3, 5, 12, 40)      # subsystem names by rank (ascending, not contiguous, not equal to positions)
+NAMES = (-4, 0, 12, 40)     # subsystem names by rank (ascending, not contiguous, not equal to positions; a negative name and the falsy name 0)
 COUNTS = (2, 3, 4, 5)       # outcome counts / ensemble sizes by rank: pairwise different
 ATOL = 1e-9
 DENSE_MAX = 36              # dense operator cross-check up to this total dimension (states / POVMs)
@@ -829,6 +829,9 @@ def ex_basis(p, seed):
 # embedding qutrit -> two qubits
 # ------------------------------------------------------------------------------------------------
 
+WEAK = (1e-6, 1e-9, 1e-11)
+
+
 def emb_systems():
     key = ("embsys",)
     if key not in _C:
@@ -866,6 +869,10 @@ def emb_inputs(kind, seed):
             res.append(("alphabet:" + k, A.q_gate(c3, v)))
         for nm in gate_typical.get_gate_names_1qutrit():
             res.append(("catalogue:" + nm, gate_typical.generate_gate_from_gate_name(nm, c3)))
+        g3 = A.gates_ref(3, seed)
+        for pw in WEAK:
+            # a unitary with a weak admixture of a second channel: Choi eigenvalues of size p (far above rounding, far below 1)
+            res.append(("weak:%g" % pw, A.q_gate(c3, [np.sqrt(1 - pw) * K for K in g3["unitary_generic"]] + [np.sqrt(pw) * K for K in g3["ampdamp"]])))
     elif kind == "mprocess":
         for k, v in A.instruments_ref(3, seed).items():
             res.append(("alphabet:" + k, A.q_mprocess(c3, v)))
@@ -883,7 +890,8 @@ def emb_labels(kind, seed):
     if kind == "povm":
         return ["alphabet:" + k for k in A.povms_ref(3, seed)] + ["catalogue:" + k for k in povm_typical.get_povm_names_1qutrit()]
     if kind == "gate":
-        return ["alphabet:" + k for k in A.gates_ref(3, seed)] + ["catalogue:" + k for k in gate_typical.get_gate_names_1qutrit()]
+        return ["alphabet:" + k for k in A.gates_ref(3, seed)] + ["catalogue:" + k for k in gate_typical.get_gate_names_1qutrit()] + [
+            "weak:%g" % pw for pw in WEAK]
     return ["alphabet:" + k for k in A.instruments_ref(3, seed)] + [
         "catalogue:" + k for k in mprocess_typical.get_mprocess_names_type1() + mprocess_typical.get_mprocess_names_type2()
         if k.startswith("z3") or k.startswith("z2")]
@@ -929,7 +937,7 @@ def tp_defect_sup(S, D):
     return worst
 
 
-def physical_defects(dn):
+def physical_defects(dn, tol=None):
     """reference-side physicality of a dense reading: list of (what, size)"""
     bad = []
     D = dn.D
@@ -997,7 +1005,8 @@ def ex_embed(p, seed):
     if physical_defects(d_in):
         raise AssertionError("harness: unphysical embedding input %s %r" % (label, physical_defects(d_in)))
     out.traces += 1
-    for what, size in physical_defects(d_emb):
+    # a weak admixture is exact algebra too: its embedding is physical to rounding accuracy, not merely to ATOL
+    for what, size in physical_defects(d_emb, 1e-13 if src == "weak" else None):
         out.fail("%s:physicality:%s:%s" % (site, what, src), "%s embedded is not %s (defect %.3e)" % (label, what, size))
     okp, phys = A.call(emb.is_physical)
     if okp and not phys and not physical_defects(d_emb):
